@@ -253,27 +253,16 @@ pub mod boundary {
 
         /// Get the element at index `idx`
         pub fn get(&self, idx: usize) -> Option<T> {
-            let ptr = self.inner.get(idx)?;
-
-            #[cfg(feature = "verif-hooks")]
-            crate::verif::list_ptr_escaped(
-                ptr.as_ptr() as usize,
-                std::mem::size_of::<T::Transformed>(),
-            );
+            // The element is cloned while we hold the lock: a pointer into
+            // the buffer is only valid until another thread pushes.
+            let guard = self.inner.0.lock().unwrap();
+            let ptr = guard.get(idx)?;
 
             // SAFETY: The list has values of T::Transformed, which means that
             // this cast is valid.
             let transformed =
                 unsafe { ptr.cast::<T::Transformed>().as_ref() };
 
-            #[cfg(feature = "verif-hooks")]
-            let res = Some(T::untransform(transformed.clone()));
-            #[cfg(feature = "verif-hooks")]
-            crate::verif::list_ptr_done(ptr.as_ptr() as usize);
-            #[cfg(feature = "verif-hooks")]
-            return res;
-
-            #[cfg(not(feature = "verif-hooks"))]
             Some(T::untransform(transformed.clone()))
         }
 
